@@ -589,6 +589,11 @@ def build_cases(ctx):
             ks = None
             if n == 6:
                 ks = [2, 3, 4] + rng.sample([5, 6, 7], 1)
+            if n == 5 and quick and rng.random() < 0.75:
+                # quick tier: every labelled graph keeps triangles / core / clustering / cliques of size 3, 4;
+                # the other clique sizes and the DAG comparison run on a quarter of them
+                funcs = ('tri', 'cc', 'core', 'cliques')
+                ks = [3, 4]
             cases += cases_for_graph(ctx, a, rng, 'all%d' % n, True, ks, funcs)
             ctx.count('exhaustive:n=%d' % n)
     # refused clique sizes
